@@ -448,3 +448,79 @@ Proof.
   - rewrite Hpn, Hfirst, Nat2Z.inj_add. lia.
   - rewrite Hpl, E. apply peekPnLen_list; assumption.
 Qed.
+
+(** * every datagram of a random-builder flight carries at most maxCryptoData bytes *)
+
+(** The spec "fits": no CryptoLength, every QUICRandomFrames entry has Length > 0 and
+    MinPADDING >= 1, and header + one CRYPTO frame of maxCryptoData bytes stays below the
+    packet's maximum, at every datagram index and stream offset (so the packer's reserve cap
+    is the binding one).  Example: [random_fits_chrome146] in ProofsDecrypt.v. *)
+Definition random_fits (c : cfg) (rfs : list (Z * Z * Z * Z)) : Prop :=
+  forall i off rf, 0 <= i -> 0 <= off -> rfFor rfs i = Some rf ->
+    fst (planFor (c_plans c) i) = 0 /\ 0 < fst (fst (fst rf)) /\ 1 <= snd (fst (fst rf)) /\
+    let n := maxCryptoData rf off in
+    1 <= n <= 16383 /\ 0 < hdrOf c i + (1 + vlen off + vlen n + n) < capAt c i - overhead.
+
+Lemma rfFor_some rfs i : rfs <> [] -> exists rf, rfFor rfs i = Some rf.
+Proof. intros H. unfold rfFor. destruct rfs; [congruence|]. eexists. reflexivity. Qed.
+
+Lemma flightLoop_crypto_bound fuel : forall c plens i off rem k rfs pn pnLen h fs lf pk dl ix rp,
+  c_bk c = BRandom rfs -> rfs <> [] -> random_fits c rfs -> 0 <= i -> 0 <= off ->
+  nth_error (flightLoop fuel c plens i i off rem) k = Some (DG pn pnLen h fs lf pk dl ix rp) ->
+  exists rf o n, rfFor rfs (i + Z.of_nat k) = Some rf /\ fs = [(o, n)] /\ 0 <= o /\ 0 < n <= maxCryptoData rf o.
+Proof.
+  induction fuel as [|f IH]; intros c plens i off rem k rfs pn pnLen h fs lf pk dl ix rp Hbk Hne Hfit Hi Hoff H;
+    cbn [flightLoop] in H.
+  - destruct k; discriminate.
+  - destruct (rfFor_some rfs i Hne) as [rf Hrf].
+    destruct (Hfit i off rf Hi Hoff Hrf) as (Hcl & Hlen & Hpad & Hn & Hb). cbv zeta in Hn, Hb.
+    set (n := maxCryptoData rf off) in *.
+    destruct (planFor (c_plans c) i) as [cl ps] eqn:EP. cbn [fst] in Hcl. subst cl.
+    unfold capAt in Hb. rewrite EP in Hb. cbn [snd] in Hb.
+    rewrite Hbk in H.
+    rewrite (initialBudget_random (hdrOf c i) off (c_maxSize c) ps rfs i rf Hrf Hlen Hpad) in H by (fold n; lia).
+    fold n in H.
+    assert (Hpop : popLoop 4 off rem (1 + vlen off + vlen n + n) =
+                   if rem <=? 0 then ([], off, rem)
+                   else if n <=? rem then ([(off, n)], off + n, rem - n) else ([(off, rem)], off + rem, 0)).
+    { destruct (Z.leb_spec rem 0) as [Hr|Hr]; [rewrite popLoop_S; destruct (Z.leb_spec rem 0); [reflexivity|lia]|].
+      destruct (Z.leb_spec n rem); [apply popLoop_split_exact; lia|apply popLoop_split_rest; lia]. }
+    rewrite Hpop in H. clear Hpop.
+    destruct (Z.leb_spec rem 0) as [Hr|Hr]; [destruct k; discriminate|].
+    assert (Hstep : forall o' r' n', 0 < n' <= n -> o' = off + n' ->
+      nth_error (let plen := nth 0 plens (-1) in
+                 if plen <? 0 then [DGErr 2]
+                 else match appendInitial (0, ps) (hdrOf c i) (pnLenOf c i) plen (c_udpMin c) with
+                      | AppErr => [DGErr 1]
+                      | AppOk lf0 pl0 dl0 rp0 =>
+                        DG (pnOf c i) (pnLenOf c i) (hdrOf c i) [(off, n')] lf0 pl0 dl0 (i + 1) rp0
+                        :: flightLoop f c (tl plens) (i + 1) (i + 1) o' r'
+                      end) k = Some (DG pn pnLen h fs lf pk dl ix rp) ->
+      exists rf0 o n0, rfFor rfs (i + Z.of_nat k) = Some rf0 /\ fs = [(o, n0)] /\ 0 <= o /\ 0 < n0 <= maxCryptoData rf0 o).
+    { intros o' r' n' Hn' -> Hk. cbv zeta in Hk.
+      destruct (nth 0 plens (-1) <? 0); [destruct k as [|[|k]]; cbn in Hk; discriminate|].
+      destruct (appendInitial _ _ _ _ _); [destruct k as [|[|k]]; cbn in Hk; discriminate|].
+      destruct k as [|k].
+      - cbn in Hk. inversion Hk; subst. exists rf, off, n'. replace (i + Z.of_nat 0) with i by lia.
+        repeat split; try assumption; try (fold n; lia).
+      - cbn [nth_error] in Hk.
+        destruct (IH c (tl plens) (i + 1) (off + n') r' k rfs pn pnLen h fs lf pk dl ix rp Hbk Hne Hfit ltac:(lia) ltac:(lia) Hk)
+          as (rf0 & o & n0 & E1 & E2 & E3 & E4).
+        exists rf0, o, n0. replace (i + Z.of_nat (S k)) with (i + 1 + Z.of_nat k) by lia. repeat split; assumption || lia. }
+    destruct (Z.leb_spec n rem) as [Hge|Hlt].
+    + eapply (Hstep (off + n) (rem - n) n); [lia|reflexivity|exact H].
+    + eapply (Hstep (off + rem) 0 rem); [lia|reflexivity|exact H].
+Qed.
+
+(** stable name for other units (C11): for every datagram of a flight built with a
+    QUICRandomFrames / QUICMultiDatagramFrames builder whose spec fits, the CRYPTO slice handed
+    to the builder is one contiguous range (o, n) with 0 < n <= maxCryptoData of that
+    datagram's builder entry at that offset *)
+Lemma flight_datagram_crypto_bound c helloLen plens k rfs pn pnLen h fs lf pk dl ix rp :
+  c_bk c = BRandom rfs -> rfs <> [] -> random_fits c rfs ->
+  nth_error (flight c helloLen plens) k = Some (DG pn pnLen h fs lf pk dl ix rp) ->
+  exists rf o n, rfFor rfs (Z.of_nat k) = Some rf /\ fs = [(o, n)] /\ 0 <= o /\ 0 < n <= maxCryptoData rf o.
+Proof.
+  intros Hbk Hne Hfit H. unfold flight in H. rewrite Hbk in H.
+  exact (flightLoop_crypto_bound maxDatagrams c plens 0 0 helloLen k rfs pn pnLen h fs lf pk dl ix rp Hbk Hne Hfit ltac:(lia) ltac:(lia) H).
+Qed.
